@@ -73,6 +73,7 @@ func (m *Mutex) Unlock() {
 		m.c.Broadcast()
 	}
 	m.in.Unlock()
+	simcore.UnlockYield("un")
 }
 
 // RWMutex has the semantics of sync.RWMutex, including that a waiting writer
@@ -115,6 +116,7 @@ func (m *RWMutex) Unlock() {
 		m.c.Broadcast()
 	}
 	m.in.Unlock()
+	simcore.UnlockYield("unw")
 }
 
 func (m *RWMutex) RLock() {
@@ -138,6 +140,7 @@ func (m *RWMutex) RUnlock() {
 		m.c.Broadcast()
 	}
 	m.in.Unlock()
+	simcore.UnlockYield("unr")
 }
 
 func (m *RWMutex) TryLock() bool {
